@@ -244,6 +244,41 @@ def body_excitation(case):
         if cls == "in-gamut":
             check(np.all(np.abs(q - b) <= 2e-2 * (1 + b) ** 2 + 2e-2), "excitation:in-gamut-not-reproduced",
                   f"in-gamut target {b.tolist()} fitted as {q.tolist()}")
+    # receptors that do not count (weight 0, registered with the targets) are ignored, however unreachable their targets: the
+    # optimum is the one of the system without them (estimator route: register_targets(B, W) then fit(model="excitation"))
+    if sv.m >= 2 and (sv.K_raw is None or np.ndim(sv.K_raw) < 2) and int(abs(float(np.sum(B))) * 1e6) % 3 == 0:
+        j = sv.m - 1
+        keep = [i for i in range(sv.m) if i != j]
+        sub_ = lambda v: v if (v is None or np.ndim(v) == 0) else np.asarray(v, dtype=float)[keep].tolist()
+        sub = Sys(dict(case["system"], A=np.asarray(case["system"]["A"], dtype=float)[keep].tolist(), K=sub_(sv.K_raw), baseline=sub_(sv.base_raw)))
+        Bm = B.copy()
+        Bm[:, j] = Bm[:, j] + 3.0 * sv.extent              # out of reach for the masked receptor
+        mask = np.ones(sv.m)
+        mask[j] = 0.0
+        Wm = mask if B.shape[0] % 2 else np.tile(mask, (B.shape[0], 1))
+        with calling(f"register_targets(B, W={'1-D' if Wm.ndim == 1 else '2-D'} 0/1 mask) + fit(model='excitation')"):
+            est = sv.make_estimator()
+            est.register_targets(Bm.copy(), W=Wm.copy())
+            est.fit(model="excitation")             # registered targets: returns the estimator, the result is in est.X
+        Xm = np.asarray(est.X, dtype=float)
+        check(Xm.shape == (B.shape[0], sv.n), "excitation:masked:shape", f"{Xm.shape}")
+        # the same call through the function (same solver, same problem): the two routes agree whatever the solver's accuracy
+        from dreye.api.optimize.lsq_linear import lsq_linear_excitation as _exc
+
+        with calling("lsq_linear_excitation(W=0/1 mask)"):
+            Xfn = np.asarray(_exc(sv.A, Bm.copy(), W=Wm.copy(), **sv.kwargs()), dtype=float)
+        if not (Xfn.shape == Xm.shape and np.all(np.abs(Xfn - Xm) <= 1e-6 * float(np.max(rng)))):
+            raise Violation("excitation:masked:route-differs", f"registered 0/1 weights: ReceptorEstimator.fit(model='excitation') gives {Xm.tolist()}, "
+                            f"lsq_linear_excitation with the same targets and weights {Xfn.tolist()}", exact=True)
+        for i, b in enumerate(B):
+            qk = sub.predict(np.clip(Xm[i], sv.lb, sv.ub))
+            v_code = excitation_value(b[keep], np.maximum(qk, 0))
+            t_opt, _ = excitation_opt(sub, b[keep])
+            sev = "minor" if v_code <= t_opt + 0.1 else "major"
+            check(v_code <= t_opt + etol, f"excitation:not-optimal-{sev}:masked",
+                  f"with receptor {j} weighted 0 the largest excitation difference over the counted receptors is {v_code:.5g}, the optimum without that receptor {t_opt:.5g}",
+                  observed=dict(b=b.tolist(), x=Xm[i].tolist()))
+        labs.append("nt:masked-receptor")
     return labs
 
 
@@ -287,6 +322,7 @@ RULE = (
     "with an LP feasibility problem (|b-q| <= t(1+b)(1+q) is linear in q), tolerance 2.5e-2 excitation units (default SCS bisection); in gamut - the target "
     "itself (2e-2). Non-trivial = baseline != 0 or an out-of-gamut target."
     " Poisson and agreement cases draw batch_size in {None,2,3,full}; a fifth hand over whole-number targets as int64; a quarter of the Poisson cases contain one (nearly) dark target entry (0, 1e-6..1e-12)."
+    " Excitation: in a third of the cases a receptor is masked by 0/1 weights registered with the targets (unreachable target for it): optimum of the system without that receptor, and estimator route == function route (exact comparison)."
 )
 
 PROP = Prop(
